@@ -25,7 +25,7 @@ ASSUMPTIONS = [
 BOUNDS = {"quick": "API: every tree with <= 2 operands over + - * / max min plus consumption/production wrappers; strings with <= 2 operands; 5 kinds per operand, all flag settings",
           "thorough": "API and strings with <= 3 operands"}
 OUTSIDE = "larger expressions; constants combined with missing values beyond 1 operand; 3-phase engines"
-BUDGET = {"quick": 400, "thorough": 2400}
+BUDGET = {"quick": 400, "thorough": 1200}
 KINDS = ["real", "none", "nan", "inf", "ninf"]
 _cache = {}
 
